@@ -31,3 +31,24 @@ fn injected_accept_failures_reach_std_net() {
     // the connection stayed in the backlog
     assert!(l.accept().is_ok());
 }
+
+#[test]
+fn calls_on_duplicated_descriptors_are_attributed_to_their_file() {
+    use std::io::Write;
+    bcverif::shim::init();
+    let dir = std::env::temp_dir().join(format!("shimtest-{}", std::process::id()));
+    let _ = std::fs::remove_dir_all(&dir);
+    std::fs::create_dir_all(&dir).unwrap();
+    bcverif::shim::start(&dir, false);
+    let mut f = std::fs::OpenOptions::new().create_new(true).append(true).open(dir.join("1.bitcask.data")).unwrap();
+    f.write_all(b"abc").unwrap();
+    let dup = f.try_clone().unwrap();
+    dup.sync_all().unwrap();
+    (&dup).write_all(b"de").unwrap();
+    drop(dup);
+    let calls = bcverif::shim::stop();
+    let kinds: Vec<(&str, String)> = calls.iter().map(|c| (c.kind, c.file.clone())).collect();
+    assert!(kinds.contains(&("fsync", "1.bitcask.data".to_string())), "{kinds:?}");
+    assert_eq!(calls.iter().filter(|c| c.kind == "write" && c.file == "1.bitcask.data").count(), 2, "{kinds:?}");
+    let _ = std::fs::remove_dir_all(&dir);
+}
